@@ -11,6 +11,34 @@ CHECKS = {
    note="Scheduling points only at synchronisation operations (sound for data-race-free code; races are the -race pass's job, which is a dynamic analysis of the runs it sees). Virtual clock. 2 clients x 3 timestamps x 2 services alphabet. Trusts the Go runtime and the shim's model of sync.RWMutex (writer preference).",
    technique="stateless model checking of thread interleavings (preemption-bounded DFS under a controlled scheduler) + explicit-state BFS over operation histories on the real code",
    engine="sched+bfs"),
+ "C05": dict(
+   category="model_checking",
+   text="Complete enumeration of the product etype(6) x plaintext length 0..130 x every key usage gokrb5 names plus boundary usages (127,128,255,256,1024,2^31) x 2-3 keys, in both directions, against an independent RFC implementation (ref/rcrypto, validated against the RFC appendix vectors on every run): what gokrb5 encrypts the reference decrypts and vice versa; the confounder recovered by the reference must be exactly the bytes drawn from the (recorded) CSPRNG and differ between two encryptions. Thorough tier: OpenJDK's Kerberos crypto decrypts every cell too.",
+   design="DESIGN.md 2/C05, 1.5",
+   note="Key and plaintext bytes are seeded pseudo-random (not enumerated). Trusts Go's AES/DES/RC4/HMAC/SHA/MD4/MD5 primitives (shared by gokrb5 and the reference) and the RFC test vectors.",
+   technique="bounded-exhaustive enumeration of the (etype,length,usage,direction) space on the real code against a reference model",
+   engine="enum"),
+ "C06": dict(
+   category="model_checking",
+   text="For every etype and plaintext length 0..64, a genuine reference-produced ciphertext is subjected to every single-bit flip, every truncation, appended/prepended bytes, every swap of two aligned blocks, every other key usage of the usage set (rc4 modulo the RFC 4757 aliases), unrelated keys and the same key bytes under every other etype of equal key length; gokrb5's DecryptMessage must return an error and no plaintext for each (a panic counts as a violation).",
+   design="DESIGN.md 2/C06",
+   note="Mutations are single deviations from a genuine ciphertext (plus key/usage/etype substitutions); a mutated input the reference also accepts would not be judged (none observed). Key/plaintext bytes seeded.",
+   technique="bounded-exhaustive enumeration of single-deviation neighbourhoods of valid ciphertexts on the real code",
+   engine="enum"),
+ "C07": dict(
+   category="model_checking",
+   text="Checksum values for checksum type(6) x data length 0..200 x usage set x 2 keys are compared with the independent RFC implementation (and OpenJDK in the thorough tier); VerifyChecksum must accept exactly that value and reject every truncation, all 256 one-byte extensions, every single-bit flip, flipped/extended/truncated data, another key and every other (non-aliased) usage; GetChksumEtype is checked for every id in -200..200 against the IANA pairing.",
+   design="DESIGN.md 2/C07",
+   note="Key and data bytes are seeded pseudo-random. Trusts the hash primitives and the RFC vectors.",
+   technique="bounded-exhaustive enumeration of (type,length,usage) and of single-deviation neighbourhoods of correct checksums against a reference model",
+   engine="enum"),
+ "C08": dict(
+   category="model_checking",
+   text="String-to-key over etype(6) x 14 passwords (ASCII, Latin-1, BMP, supplementary plane, empty, 64/65 bytes) x 5 salts x iteration counts (1..64 and powers of two quick, 1..5000 thorough, defaults) and malformed parameters; n-fold for every input length 1..64 x 5 output sizes x all unit-bit vectors; DK/DR/KDF-HMAC-SHA2 with constants of every length 1..16 and every usage constant; DES3 random-to-key for all 256 values at each byte position and pre-images of all 16 weak keys in each third; GetKeyFromPassword for every ordered sequence of every subset of the three PA-data hints (with/without s2kparams, hint etype equal/different); generated session keys and subkeys of every etype must have the RFC length and round-trip through the reference.",
+   design="DESIGN.md 2/C08",
+   note="Not judged: des3 string-to-key of empty password with empty salt (n-fold of the empty string is undefined); EncryptionKey.KeyType label when the hinted etype differs from the requested one. PA-data encodings come from the independent DER writer.",
+   technique="bounded-exhaustive enumeration of input grids on the real code against a reference model (RFC vectors + JDK as second oracle)",
+   engine="enum"),
 }
 
 TODO_REASON = "check not yet built in this revision of /verif (work in progress; see DESIGN.md section 2 for the planned bounded-exhaustive exploration)"
